@@ -308,10 +308,14 @@ def match_sequence_type(value: Any,
 
         if st == 'node()':
             return True
+        elif node_kind == 'namespace':
+            return st == 'namespace-node()'
         elif not st.startswith(node_kind) or not st.endswith(')'):
             return False
         elif st == f'{node_kind}()':
             return True
+        elif node_kind == 'processing-instruction':
+            return st[23:-1].strip('"\'') == v.name
         elif node_kind == 'document':
             element_test = st[14:-1]
             if not element_test:
